@@ -112,7 +112,11 @@ PlayFullFails(ev, sg, c) ==
       lastCall == calls[Len(calls)]
       nLS == Count(H, LAMBDA x : x[3] = 1)
       nLE == Count(H, LAMBDA x : x[3] = 2)
-  IN IF ~finite THEN
+  IN IF finite /\ Len(D) > Max(n, 1) * Len(its) + 8 THEN
+       \* far more deliveries than the requested passes can produce (a loop that does not end): decided without the
+       \* per-key counting, which is quadratic in the length of the log
+       {IF c.loopEn THEN "delivery-count" ELSE "delivery-count"} \cup Lbl(ev.atend = 1, "not-at-end")
+     ELSE IF ~finite THEN
        \* endless loop: never at end, keeps jumping (at least one jump observed), nothing delivered that the song does not contain
        Lbl(ev.atend = 0, "infinite-ended") \cup Lbl(drops # {}, "infinite-nojump") \cup
        Lbl(\A i \in DOMAIN Dk : \E j \in DOMAIN Rk : Rk[j] = Dk[i], "alien-event")
@@ -290,10 +294,12 @@ StepCfg(ev) ==
   /\ UNCHANGED <<song, pos, exec, fails, drift>>
   /\ cnt' = [cnt EXCEPT !.steps = @ + 1]
 StepPlayTicks(ev) ==
-  LET full == ~pos.moved /\ ev.trunc = 0 /\ "partial" \notin DOMAIN ev     \* partial: deliberately stopped after a few calls
+  LET \* partial: deliberately stopped after a few calls; trunc: the harness cut the log at 6000 entries, which a play that
+      \* is expected to end never reaches (then it is judged: it did not end)
+      full == ~pos.moved /\ "partial" \notin DOMAIN ev /\ (ev.trunc = 0 \/ ~cfg.loopEn \/ cfg.loopN >= 0)
       li == LoopInfo(song)
       f7 == IF full THEN PlayFullFails(ev, song, cfg) ELSE {}
-      fw == IF full /\ ~cfg.loopEn THEN WindowFails(ev, song, cfg) ELSE {}
+      fw == IF full /\ ~cfg.loopEn /\ ev.trunc = 0 THEN WindowFails(ev, song, cfg) ELSE {}
       is9(x) == x \in {"delivery-count@loopend-row", "jump-count", "jump-target", "jump-target0", "loopend-hook-count", "loopstart-hook-count", "songend-hook",
                        "infinite-ended", "infinite-nojump"} \/ (cfg.loopEn /\ x = "delivery-count")
       D == EntriesOf(ev.calls, "e")
